@@ -17,9 +17,11 @@ from vf import core
 MODULES = ["m", "M", "m2"]
 # names that collide under case folding, under LIKE wildcards (_ %), and under GLOB wildcards (* ? [...]) and regex metacharacters
 QUALNAMES = ["my_func", "myXfunc", "MY_FUNC", "my", "Foo.bar", "Foo.baz", "foo", "a%b", "aXYb", "a_b", "Foo", "my_func2",
-             "Box[int].get", "Boxi", "is_ok?", "is_okay", "a*b", "a.b"]
+             "Box[int].get", "Boxi", "is_ok?", "is_okay", "a*b", "a.b",
+             # identifiers beyond ASCII / Latin-1 (PEP 3131): the character after a prefix may sort above any sentinel a range scan might use
+             "Foo.\u03bb_max", "caf\u0113.run", "\u03a9mega", "my_func\u00ff", "my_func\U0001d4b3", "Foo.\u00e9", "\u540d\u524d.get", "a\uffff"]
 PREFIXES = [None, "", "my_func", "my_", "my", "foo", "Foo", "Foo.", "a%b", "a", "MY", "%", "_", "a_", "f",
-            "Box[int]", "Box[", "Box", "is_ok?", "a*", "*", "?", "[", "a.", "a.b"]
+            "Box[int]", "Box[", "Box", "is_ok?", "a*", "*", "?", "[", "a.", "a.b", "caf", "Foo.\u03bb", "\u03a9", "my_func\u00ff", "\u540d", "caf\u0113."]
 LIMITS = [1, 2, 1000]
 QMODULES = MODULES + ["zz", "%", "m_"]
 
